@@ -368,9 +368,19 @@ def check_scan_stride(ctx, facts, rid="C06.5"):
     ctx.floor(rid, "advances of the unit loop offset", n, 1)
 
 
-def check_read_side_ignores_limit(ctx, facts):
-    if not any(v["rule"] == "C06.1" and "block-limit-differs" in v["what"] for v in ctx.violations):
-        ctx.ok("C06.4", "read side", "vacuous: the allocator never hands out a block whose limit differs from recovery's (C06.1 holds)", None, None, trivial=True)
+def check_read_side_ignores_limit(ctx, facts, rid="C06.4"):
+    D_ = facts.const_val("config::DEFAULT_BLOCK_SIZE")
+    differs = False
+    for fn_ in ("allocator::BlockAllocator::new", "allocator::BlockAllocator::get_next_available_block", "allocator::BlockAllocator::alloc_block"):
+        try:
+            ab = facts.body(fn_)
+        except Exception:
+            continue
+        for site, fields in _block_aggs(ab):
+            if fmtfeat.const_eval(expr(ab, fields["limit"])) != D_:
+                differs = True
+    if not differs:
+        ctx.ok(rid, "read side", "vacuous: the allocator never hands out a block whose limit differs from recovery's (C06.1 holds)", None, None, trivial=True)
         return
     roots = ["block::Block::read", "read_next", "batch_read_for_topic", "walrus::Walrus::startup_chore", "walrus::Walrus::rebuild_topic_entry_counts_after_recovery"]
     names = set()
@@ -385,11 +395,11 @@ def check_read_side_ignores_limit(ctx, facts):
             continue
         n += 1
         for site in b.field_loads("block::Block", "limit"):
-            ctx.violate("C06.4", F, "read-side-depends-on-block-limit", b.relfile, site.line,
+            ctx.violate(rid, F, "read-side-depends-on-block-limit", b.relfile, site.line,
                         "%s loads Block.limit: recovery re-creates every block with limit = DEFAULT_BLOCK_SIZE while the allocator hands out larger blocks for large entries, so this "
                         "code treats the same on-disk entry differently before and after a restart" % F)
-    ctx.floor("C06.4", "read/recovery-side bodies inspected", n, 3)
-    ctx.ok("C06.4", "read side", "bodies on the read/recovery side inspected for loads of Block.limit: %d" % n, None, None)
+    ctx.floor(rid, "read/recovery-side bodies inspected", n, 3)
+    ctx.ok(rid, "read side", "bodies on the read/recovery side inspected for loads of Block.limit: %d" % n, None, None)
 
 
 def run(ctx):
